@@ -58,6 +58,10 @@ class Interp:
         _j.INTERP = self
         self.contracts = {}
         self.contract_uses = {}
+        self.lemma_uses = {}
+        self.loop_reports = {}
+        self.alloc_reports = {}
+        self.iter_sites = {}
         self.elem_of = {}
         self.forall_established = []
 
